@@ -78,7 +78,7 @@ pub fn random_program(rng: &mut Rng, nvals: usize) -> Vec<Prog> {
 
 pub fn run(em: &mut Emitter, rng: &mut Rng, thorough: bool) {
     let ctxs = [Ctx::Top, Ctx::Definite, Ctx::Indefinite];
-    for _ in 0..(if thorough { 30_000 } else { 3_500 }) {
+    for _ in 0..(if thorough { 120_000 } else { 3_500 }) {
         let mode = rng.below(3) as u8;
         let ctx = *rng.pick(&ctxs);
         if !ctx_ok(mode, ctx) { continue }
@@ -91,7 +91,7 @@ pub fn run(em: &mut Emitter, rng: &mut Rng, thorough: bool) {
     }
     run_grants(em, rng, thorough);
     // typed leaves with two-octet peeks (INTEGER check_head) under exact grants
-    for _ in 0..(if thorough { 20_000 } else { 2_000 }) {
+    for _ in 0..(if thorough { 80_000 } else { 2_000 }) {
         let n = rng.range(0, 5) as usize; let mut c = rng.bytes(n); if n > 0 && rng.bool() { c[0] = *rng.pick(&[0u8, 0xff, 0x7f, 0x80]); }
         let mut data = vec![0x02, n as u8]; data.extend(&c); data.extend_from_slice(&[0x05, 0x00]);
         let ps = vec![Prog::Take { opt: true, kind: 1, exp: Some((0, 2)), body: Body::Typed(rng.below(10) as u8) }, Prog::ReadAll];
@@ -136,7 +136,7 @@ fn run_aops<S: Source>(ops: &[Aop], src: &mut bcder::decode::LimitedSource<S>) -
 }
 
 pub fn run_grants(em: &mut Emitter, rng: &mut Rng, thorough: bool) {
-    for _ in 0..(if thorough { 400_000 } else { 40_000 }) {
+    for _ in 0..(if thorough { 1_600_000 } else { 40_000 }) {
         let n = rng.below(12) as usize;
         let mut data = rng.bytes(n);
         // make multi-octet identifiers likely
@@ -222,7 +222,7 @@ fn fault_cases(em: &mut Emitter, mode: u8, ps: &[Prog], data: &[u8], policy: Pol
 
 pub fn run08(em: &mut Emitter, rng: &mut Rng, thorough: bool) {
     let ctxs = [Ctx::Top, Ctx::Definite, Ctx::Indefinite];
-    for _ in 0..(if thorough { 8_000 } else { 1_200 }) {
+    for _ in 0..(if thorough { 32_000 } else { 1_200 }) {
         let mode = rng.below(3) as u8;
         let ctx = *rng.pick(&ctxs);
         if !ctx_ok(mode, ctx) { continue }
@@ -248,7 +248,7 @@ pub fn run08(em: &mut Emitter, rng: &mut Rng, thorough: bool) {
         }
     }
     // typed leaves inside each kind of parent
-    for _ in 0..(if thorough { 4_000 } else { 600 }) {
+    for _ in 0..(if thorough { 16_000 } else { 600 }) {
         let mode = rng.below(3) as u8;
         let ctx = *rng.pick(&ctxs);
         if !ctx_ok(mode, ctx) { continue }
